@@ -65,4 +65,14 @@ PROPS = {
         "open_statements": [],
         "explanation": "",
     },
+    "C16": {
+        "targets": ["Properties/C16.vo"],
+        "level_text": "proof: types.Equal as implemented (pointer case by printed strings, identified structs by name) holds exactly of structurally identical type trees, hence is reflexive, symmetric, transitive and distinguishes any single-attribute difference; String is injective and a printed type parses back to itself (unbounded, structural induction; termination on recursive types is the guard condition because recursion goes through names). Tie by proof to the source: the regenerated String/LLString methods compute ty_string for every type, the regenerated Equal methods compute equal_go for every loop-free type against every type. Tie by correspondence: Equal and String on generated universes of types (all kinds, address spaces, scalable vectors, packed/literal/identified/recursive structs, variadic functions) against the extracted model; oracles for reflexivity, symmetry, transitivity, mutants and print/parse on the implementation.",
+        "level_note": "trusted: Coq kernel; translator + GoEval for the regenerated methods; universe assumption of the property (names unique, only structs named); literal structs and function types of the regenerated Equal are covered by correspondence and a 961-pair computation, not yet by the unbounded refinement",
+        "rule": "a case is one type (String) or one ordered pair (Equal); non-trivial = distinct type encodings in the generated universe; mutants differ in exactly one attribute",
+        "trusted": [],
+        "assumptions": ["type names are unique and only struct types are named (LLVM's data model, stated in the property)"],
+        "open_statements": ["generated_equal_is_equal_go for literal structs and function types (index loop with early return)"],
+        "explanation": "",
+    },
 }
